@@ -108,23 +108,20 @@ __CPROVER_assigns(__CPROVER_object_whole(&vg_idel), *it)
 __CPROVER_ensures(vg_idel.calls == 1 && vg_idel.it == __CPROVER_old(*it) && *it == NULL && vg_idel.iters_at_call == vg_sfs->n_iters)
 ;
 #define VG_F ((struct mtbl_fileset *)clos)
-struct mtbl_iter *fileset_source_iter__spec(void *clos)
-__CPROVER_requires(__CPROVER_is_fresh(clos, sizeof(struct mtbl_fileset)) && __CPROVER_is_fresh(VG_F->shared_fs, sizeof(struct shared_fileset)) && vg_sfs == VG_F->shared_fs && VG_F->shared_fs->my_fs != NULL)
-__CPROVER_requires(vg_rl.calls == 0 && vg_ri.calls == 0 && vg_clk.calls == 0 && vg_seq == 0 && vg_msrc.calls == 0 && vg_sit.calls == 0 && vg_iin.calls == 0 && VG_F->shared_fs->n_iters <= 1000000)
-__CPROVER_requires(VG_SAME(VG_F->fs_last, VG_F->shared_fs->fs_last) ==> vg_mgen == vg_gen)
-__CPROVER_requires(vg_now.tv_sec >= VG_F->shared_fs->fs_last.tv_sec && vg_now.tv_sec >= 0 && VG_F->shared_fs->fs_last.tv_sec >= 0 && !VG_SAME(vg_now, VG_F->shared_fs->fs_last) && !VG_SAME(vg_now, VG_F->fs_last))
-__CPROVER_assigns(VG_F->fs_last, VG_F->shared_fs->fs_last, VG_F->shared_fs->reload_needed, VG_F->shared_fs->n_loaded, VG_F->shared_fs->n_unloaded, VG_F->shared_fs->n_iters, vg_gen, vg_mgen, vg_seq,
-                  __CPROVER_object_whole(&vg_rl), __CPROVER_object_whole(&vg_ri), __CPROVER_object_whole(&vg_clk), __CPROVER_object_whole(&vg_msrc), __CPROVER_object_whole(&vg_sit), __CPROVER_object_whole(&vg_iin), __CPROVER_object_whole(&vg_fit_obj))
-/* the new iterator is taken from the handle's merger AFTER the reload step, when that merger is built from the current generation,
- * and before it is counted as open (the reload step saw the count without it) */
-__CPROVER_ensures(vg_msrc.calls == 1 && vg_msrc.m == VG_F->merger && vg_msrc.current_at_call == 1 && vg_msrc.iters_at_call == __CPROVER_old(VG_F->shared_fs->n_iters))
-/* it pins the shared fileset: one more open iterator */
-__CPROVER_ensures(VG_F->shared_fs->n_iters == __CPROVER_old(VG_F->shared_fs->n_iters) + 1)
-/* a pending forced reload (reload_now deferred earlier) has happened by now when no iterator was open */
-__CPROVER_ensures((__CPROVER_old(VG_F->shared_fs->reload_needed) && __CPROVER_old(VG_F->shared_fs->n_iters) == 0) ==> (vg_rl.calls == 1 && !VG_F->shared_fs->reload_needed))
-__CPROVER_ensures(__CPROVER_old(VG_F->shared_fs->n_iters) > 0 ==> (vg_rl.calls == 0 && vg_gen == __CPROVER_old(vg_gen)))
+#define VG_SOURCE_OP_CONTRACT \
+__CPROVER_requires(__CPROVER_is_fresh(clos, sizeof(struct mtbl_fileset)) && __CPROVER_is_fresh(VG_F->shared_fs, sizeof(struct shared_fileset)) && vg_sfs == VG_F->shared_fs && VG_F->shared_fs->my_fs != NULL) \
+__CPROVER_requires(vg_rl.calls == 0 && vg_ri.calls == 0 && vg_clk.calls == 0 && vg_seq == 0 && vg_msrc.calls == 0 && vg_sit.calls == 0 && vg_iin.calls == 0 && VG_F->shared_fs->n_iters <= 1000000) \
+__CPROVER_requires(VG_SAME(VG_F->fs_last, VG_F->shared_fs->fs_last) ==> vg_mgen == vg_gen) \
+__CPROVER_requires(vg_now.tv_sec >= VG_F->shared_fs->fs_last.tv_sec && vg_now.tv_sec >= 0 && VG_F->shared_fs->fs_last.tv_sec >= 0 && !VG_SAME(vg_now, VG_F->shared_fs->fs_last) && !VG_SAME(vg_now, VG_F->fs_last)) \
+__CPROVER_assigns(VG_F->fs_last, VG_F->shared_fs->fs_last, VG_F->shared_fs->reload_needed, VG_F->shared_fs->n_loaded, VG_F->shared_fs->n_unloaded, VG_F->shared_fs->n_iters, vg_gen, vg_mgen, vg_seq, \
+                  __CPROVER_object_whole(&vg_rl), __CPROVER_object_whole(&vg_ri), __CPROVER_object_whole(&vg_clk), __CPROVER_object_whole(&vg_msrc), __CPROVER_object_whole(&vg_sit), __CPROVER_object_whole(&vg_iin), __CPROVER_object_whole(&vg_fit_obj)) \
+__CPROVER_ensures(vg_msrc.calls == 1 && vg_msrc.m == VG_F->merger && vg_msrc.current_at_call == 1 && vg_msrc.iters_at_call == __CPROVER_old(VG_F->shared_fs->n_iters)) \
+__CPROVER_ensures(VG_F->shared_fs->n_iters == __CPROVER_old(VG_F->shared_fs->n_iters) + 1) \
+__CPROVER_ensures((__CPROVER_old(VG_F->shared_fs->reload_needed) && __CPROVER_old(VG_F->shared_fs->n_iters) == 0) ==> (vg_rl.calls == 1 && !VG_F->shared_fs->reload_needed)) \
+__CPROVER_ensures(__CPROVER_old(VG_F->shared_fs->n_iters) > 0 ==> (vg_rl.calls == 0 && vg_gen == __CPROVER_old(vg_gen))) \
 __CPROVER_ensures(vg_sit.calls == 1 && vg_iin.calls == 1 && vg_iin.clos == (void *)&vg_fit_obj && vg_fit_obj.iter == vg_sit.ret && vg_fit_obj.fs == VG_F && __CPROVER_return_value == vg_iin.ret)
-;
+struct mtbl_iter *fileset_source_iter__spec(void *clos)
+VG_SOURCE_OP_CONTRACT;
 void h_fileset_source_iter_dfcc(void) { void *c; struct mtbl_iter *it = fileset_source_iter(c); VG_REACH("fileset_source_iter returns"); }
 
 #define VG_IT ((struct fileset_iter *)v)
@@ -143,3 +140,34 @@ __CPROVER_ensures(__CPROVER_old(vg_sfs->n_iters) > 1 ==> (vg_rl.calls == 0 && vg
 __CPROVER_ensures((__CPROVER_old(vg_sfs->n_iters) == 1 && __CPROVER_old(vg_sfs->reload_needed)) ==> (vg_rl.calls == 1 && !vg_sfs->reload_needed))
 ;
 void h_fileset_iter_free_dfcc(void) { void *v; fileset_iter_free(v); VG_REACH("fileset_iter_free returns"); }
+
+/* the three bounded lookups of a fileset source: same contract as fileset_source_iter (the iterator comes from the per-handle
+ * merger's lookup of the same kind, with exactly the caller's bounds) */
+struct { unsigned kind; const uint8_t *k0, *k1; size_t l0, l1; } vg_lk;
+struct mtbl_iter *mtbl_source_get__cap(const struct mtbl_source *s, const uint8_t *k, size_t l)
+__CPROVER_requires(vg_sit.calls == 0) __CPROVER_assigns(__CPROVER_object_whole(&vg_sit), __CPROVER_object_whole(&vg_lk))
+__CPROVER_ensures(vg_sit.calls == 1 && __CPROVER_return_value == vg_sit.ret && vg_lk.kind == 1 && vg_lk.k0 == k && vg_lk.l0 == l) ;
+struct mtbl_iter *mtbl_source_get_prefix__cap(const struct mtbl_source *s, const uint8_t *k, size_t l)
+__CPROVER_requires(vg_sit.calls == 0) __CPROVER_assigns(__CPROVER_object_whole(&vg_sit), __CPROVER_object_whole(&vg_lk))
+__CPROVER_ensures(vg_sit.calls == 1 && __CPROVER_return_value == vg_sit.ret && vg_lk.kind == 2 && vg_lk.k0 == k && vg_lk.l0 == l) ;
+struct mtbl_iter *mtbl_source_get_range__cap(const struct mtbl_source *s, const uint8_t *k0, size_t l0, const uint8_t *k1, size_t l1)
+__CPROVER_requires(vg_sit.calls == 0) __CPROVER_assigns(__CPROVER_object_whole(&vg_sit), __CPROVER_object_whole(&vg_lk))
+__CPROVER_ensures(vg_sit.calls == 1 && __CPROVER_return_value == vg_sit.ret && vg_lk.kind == 3 && vg_lk.k0 == k0 && vg_lk.l0 == l0 && vg_lk.k1 == k1 && vg_lk.l1 == l1) ;
+struct mtbl_iter *fileset_source_get__spec(void *clos, const uint8_t *key, size_t len_key)
+VG_SOURCE_OP_CONTRACT
+__CPROVER_assigns(__CPROVER_object_whole(&vg_lk))
+__CPROVER_ensures(vg_lk.kind == 1 && vg_lk.k0 == key && vg_lk.l0 == len_key)
+;
+struct mtbl_iter *fileset_source_get_prefix__spec(void *clos, const uint8_t *key, size_t len_key)
+VG_SOURCE_OP_CONTRACT
+__CPROVER_assigns(__CPROVER_object_whole(&vg_lk))
+__CPROVER_ensures(vg_lk.kind == 2 && vg_lk.k0 == key && vg_lk.l0 == len_key)
+;
+struct mtbl_iter *fileset_source_get_range__spec(void *clos, const uint8_t *key0, size_t len_key0, const uint8_t *key1, size_t len_key1)
+VG_SOURCE_OP_CONTRACT
+__CPROVER_assigns(__CPROVER_object_whole(&vg_lk))
+__CPROVER_ensures(vg_lk.kind == 3 && vg_lk.k0 == key0 && vg_lk.l0 == len_key0 && vg_lk.k1 == key1 && vg_lk.l1 == len_key1)
+;
+void h_fileset_source_get_dfcc(void) { void *c; const uint8_t *k; size_t l; struct mtbl_iter *it = fileset_source_get(c, k, l); VG_REACH("fileset_source_get returns"); }
+void h_fileset_source_get_prefix_dfcc(void) { void *c; const uint8_t *k; size_t l; struct mtbl_iter *it = fileset_source_get_prefix(c, k, l); VG_REACH("fileset_source_get_prefix returns"); }
+void h_fileset_source_get_range_dfcc(void) { void *c; const uint8_t *k, *k1; size_t l, l1; struct mtbl_iter *it = fileset_source_get_range(c, k, l, k1, l1); VG_REACH("fileset_source_get_range returns"); }
